@@ -436,12 +436,14 @@ func runMergeGuards(c *core.Ctx) {
 				}
 			}
 			// Compare(last, cur) < 0 ⇔ cur newer than last ⇒ must be refused
+			// cmp.Compare answers -1, 0 or +1 only
+			fwdSet = fwdSet.Intersect(an.Range(-1, 1))
 			switch {
 			case a == last && b == cur:
-				good = fwdSet.Equal(an.Range(0, an.PosInf))
+				good = fwdSet.Equal(an.Range(0, 1))
 				detail = "forwarded iff cmp.Compare(last, new) ∈ " + fwdSet.String()
 			case a == cur && b == last:
-				good = fwdSet.Equal(an.Range(an.NegInf, 0))
+				good = fwdSet.Equal(an.Range(-1, 0))
 				detail = "forwarded iff cmp.Compare(new, last) ∈ " + fwdSet.String()
 			default:
 				detail = "compares " + a + " with " + b
@@ -667,6 +669,36 @@ func outboundHandlers(c *core.Ctx) map[string]*ssa.Function {
 	return out
 }
 
+// replyEdge: one way a handler hands back a non-nil reply: a return of the
+// value, or — with a result variable (`var out *T; if … { out = m }; return
+// out`) — the edge on which the variable got it.
+type replyEdge struct {
+	val ssa.Value
+	at  *ssa.BasicBlock
+	pos token.Pos
+}
+
+func replyEdges(fn *ssa.Function) []replyEdge {
+	var out []replyEdge
+	for _, rb := range an.ReturnBlocks(fn) {
+		r := an.LastInstr(rb).(*ssa.Return)
+		rv := an.ReturnValues(r)
+		if len(rv) == 0 || an.IsNilConst(rv[0]) {
+			continue
+		}
+		if ph, ok := rv[0].(*ssa.Phi); ok {
+			for i, e := range ph.Edges {
+				if !an.IsNilConst(e) {
+					out = append(out, replyEdge{e, ph.Block().Preds[i], r.Pos()})
+				}
+			}
+			continue
+		}
+		out = append(out, replyEdge{rv[0], rb, r.Pos()})
+	}
+	return out
+}
+
 func runEoseGate(c *core.Ctx) {
 	P := c.P
 	fn := outboundHandlers(c)["ServerEOSEMsg"]
@@ -725,16 +757,13 @@ func runEoseGate(c *core.Ctx) {
 		}
 	})
 	var ret *ssa.BasicBlock
-	for _, rb := range an.ReturnBlocks(fn) {
-		rv := an.ReturnValues(an.LastInstr(rb).(*ssa.Return))
-		if !an.IsNilConst(rv[0]) {
-			if ret != nil {
-				c.Bad(nil, fname(c, fn), "gate", P.Pos(fn.Pos()), "more than one path forwards an EOSE")
-				return
-			}
-			ret = rb
-			c.Check(rv[0] == m, nil, fname(c, fn), "forwarded-value", P.Pos(rb.Instrs[len(rb.Instrs)-1].Pos()), "the forwarded EOSE is the child's own message (its subscription id)", "the forwarded EOSE is not the child's own message")
+	for _, re := range replyEdges(fn) {
+		if ret != nil {
+			c.Bad(nil, fname(c, fn), "gate", P.Pos(fn.Pos()), "more than one path forwards an EOSE")
+			return
 		}
+		ret = re.at
+		c.Check(re.val == m, nil, fname(c, fn), "forwarded-value", P.Pos(re.pos), "the forwarded EOSE is the child's own message (its subscription id)", "the forwarded EOSE is not the child's own message")
 	}
 	good := ret != nil && len(adOcc) == 2 && len(mkOcc) == 1
 	detail := fmt.Sprintf("all-done calls: %d, mark calls: %d", len(adOcc), len(mkOcc))
@@ -906,18 +935,15 @@ func runSlotRelease(c *core.Ctx) {
 			detail = "release(" + tr(rel.Call.Args[1]) + ")"
 			good = tr(rel.Call.Args[1]) == id
 			n := 0
-			for _, rb := range an.ReturnBlocks(host) {
-				rv := an.ReturnValues(an.LastInstr(rb).(*ssa.Return))
-				if an.IsNilConst(rv[0]) {
-					continue
-				}
+			for _, re := range replyEdges(host) {
+				rb := re.at
 				n++
 				if !(rel.Block() == rb || rel.Block().Dominates(rb)) {
 					good = false
 					detail += "; a replying return is not dominated by the release"
 				}
 				// the reply is the aggregate for the same id, taken before the release
-				agg := an.CallOf(rv[0])
+				agg := an.CallOf(re.val)
 				if agg == nil || len(agg.Call.Args) < 2 || tr(agg.Call.Args[1]) != id || !an.InstrDominates(agg, rel) {
 					good = false
 					detail += "; the reply is not the aggregate of the same id computed before the release"
@@ -1136,12 +1162,18 @@ func runOkAgg(c *core.Ctx) {
 		arg := call.Call.Args[0]
 		guardedByLen := false
 		for _, g := range an.Guards(host, rb) {
-			if b, ok := g.V.(*ssa.BinOp); ok && strings.HasPrefix(an.PathOf(b.X), "len(") && g.True && b.Op == token.GTR {
-				if k, isK := an.ConstInt(b.Y); isK && k == 0 {
-					if lp, ok := b.X.(*ssa.Call); ok && (lp.Call.Args[0] == arg || onlyPolarity(lp.Call.Args[0], false)) {
-						guardedByLen = true
-					}
-				}
+			// any spelling of "the rejecting list is not empty": len > 0, len != 0, !(len == 0), len >= 1 …
+			b, ok := g.V.(*ssa.BinOp)
+			if !ok {
+				continue
+			}
+			lp, ok := b.X.(*ssa.Call)
+			if !ok || !strings.HasPrefix(an.PathOf(b.X), "len(") || !(lp.Call.Args[0] == arg || onlyPolarity(lp.Call.Args[0], false)) {
+				continue
+			}
+			fr := an.Frame{IsSubject: func(v ssa.Value) bool { return v == ssa.Value(lp) }, Term: func(v ssa.Value) (int64, bool) { return an.ConstInt(v) }}
+			if set, ok := fr.Atom(g.V, g.True); ok && set.Intersect(an.Range(0, an.PosInf)).Equal(an.Range(1, an.PosInf)) {
+				guardedByLen = true
 			}
 		}
 		isRej := onlyPolarity(arg, false)
